@@ -4,6 +4,8 @@
 //! other element types (u8, i8, u64 beyond 2^53, f64 with tag 0 = -0.0, f32 likewise, an f64 table of special values
 //! (-0.0, +0.0, NaN, subnormal, inf) compared bit-wise, bool, String, char), each through BOTH receivers: the plain
 //! `Array<T>` call and the same call on `Ok(array)` through `impl ArrayAxis<T> for Result<Array<T>, ArrayError>`.
+//! Part 3: also on element types of 2 .. 48 bytes with sizes that are not powers of two (`on_layouts_arr!`, `layout_images`), and
+//! `giant` cases above 2^20 elements judged in place by the native gather formula (`Gather::at`).
 use arrharness::*;
 use std::panic::{catch_unwind, AssertUnwindSafe};
 
@@ -881,5 +883,5 @@ fn nontrivial(op: &str, args: &[&str]) -> bool {
 
 fn main() {
     harness_main(Spec { prop: "C06", gen, exec, nontrivial, hang_secs: 20,
-        rule: "exhaustive: every shape rank<=4 len<=3 (+ 15 shapes with zero-length axes incl. [0,0],[0,3],[2,0,3]) x every permutation of its axes x sign spellings (all 2^rank for rank<=3 / thorough; 3 patterns for rank 4 quick); every (i,j) x 4 spellings for swapaxes / single-axis moveaxis / rollaxis(+None); every ordered pair of sources x destinations for 2-axis moveaxis, sampled 3+-axis lists; malformed stream (axis = ndim, ndim+1, -ndim-1, +-1000, repeated axes, wrong lengths); chains (permutation then inverse, same call twice, roll/move back, error passed on); seeded random rank 5 (6 in thorough) len<=4. Sizes: big_shapes() (axis lengths 7-17 in every position, counts >256/>1024/>4096 up to 70x70), every matrix r,c in 7..=17 x 11 spellings of the flip, matrices around 32 (thorough: 64) and long thin ones, rank 3 over {1,2,8,9,17}^3, random rank 2-5 with long axes, round-trip chains on big shapes. EVERY case runs on i64 tags (compared with the model) and on the u8, i8, u64>2^53, f64(-0.0), f32(-0.0), f64 special values (NaN, subnormal, +-0, inf; bit-wise), bool, String, char images, each on the plain AND the Ok(array) receiver. Tag arrays: shape AND every element compared. PART 2: a harness-native reference (axis order from the documented meaning + gather by coordinates) is validated against the model's full answer on EVERY case; huge shapes (`huge`: huge_shapes() + 7 more, 16 384..140 000 elements, every rotation order, swaps, moves, rolls, non-rotations): the model answers the axis order (read off its own transpose on the all-2 stand-in of the same rank), elements by the validated native gather (`audit` demands >= 1000 validations); hidden state: `pair` = two shapes colliding under weak keys (polynomial hashes with multipliers 31,33,37,131,257; equal count; permuted lengths; lengths + 256 / + 65536) on a fresh thread A B A, then on another fresh thread B A B; every case <= 700 elements also runs A-B-A inside exec against a partner shape of that kind (partner judged by the native reference), and for a third of the lines the previous line is re-executed; every axis length 1..300 leading and non-leading; axis arguments c+2^8, c+2^16, c+2^32, 3*2^32 (must be refused), each refusal followed by a valid call; ranks 4..8 with 3..6-entry moveaxis lists (every ordering of three destinations), mixed spellings. non-trivial = >=2 axes longer than 1" });
+        rule: "exhaustive: every shape rank<=4 len<=3 (+ 15 shapes with zero-length axes incl. [0,0],[0,3],[2,0,3]) x every permutation of its axes x sign spellings (all 2^rank for rank<=3 / thorough; 3 patterns for rank 4 quick); every (i,j) x 4 spellings for swapaxes / single-axis moveaxis / rollaxis(+None); every ordered pair of sources x destinations for 2-axis moveaxis, sampled 3+-axis lists; malformed stream (axis = ndim, ndim+1, -ndim-1, +-1000, repeated axes, wrong lengths); chains (permutation then inverse, same call twice, roll/move back, error passed on); seeded random rank 5 (6 in thorough) len<=4. Sizes: big_shapes() (axis lengths 7-17 in every position, counts >256/>1024/>4096 up to 70x70), every matrix r,c in 7..=17 x 11 spellings of the flip, matrices around 32 (thorough: 64) and long thin ones, rank 3 over {1,2,8,9,17}^3, random rank 2-5 with long axes, round-trip chains on big shapes. EVERY case runs on i64 tags (compared with the model) and on the u8, i8, u64>2^53, f64(-0.0), f32(-0.0), f64 special values (NaN, subnormal, +-0, inf; bit-wise), bool, String, char images, each on the plain AND the Ok(array) receiver. Tag arrays: shape AND every element compared. PART 2: a harness-native reference (axis order from the documented meaning + gather by coordinates) is validated against the model's full answer on EVERY case; huge shapes (`huge`: huge_shapes() + 7 more, 16 384..140 000 elements, every rotation order, swaps, moves, rolls, non-rotations): the model answers the axis order (read off its own transpose on the all-2 stand-in of the same rank), elements by the validated native gather (`audit` demands >= 1000 validations); hidden state: `pair` = two shapes colliding under weak keys (polynomial hashes with multipliers 31,33,37,131,257; equal count; permuted lengths; lengths + 256 / + 65536) on a fresh thread A B A, then on another fresh thread B A B; every case <= 700 elements also runs A-B-A inside exec against a partner shape of that kind (partner judged by the native reference), and for a third of the lines the previous line is re-executed; every axis length 1..300 leading and non-leading; axis arguments c+2^8, c+2^16, c+2^32, 3*2^32 (must be refused), each refusal followed by a valid call; ranks 4..8 with 3..6-entry moveaxis lists (every ordering of three destinations), mixed spellings. PART 3: (12) element layout - every case also runs on element types of 2, 3, 5, 6, 9, 12, 16, 20, 32 (not Copy), 36, 40, 48 bytes (single calls: on_layouts_arr! on the plain receiver + the Ok(array) receiver; chains: both; a rotating pair of the further sizes per case), plus every matrix r,c in 1..=6 x 11 spellings of the flip, matrices with lengths around the tile edges 5/10/12/21/42/63 and rank 3/4 shapes with them; (11) `giant iota:SHAPE step`: 20 (thorough 24) shapes with 2^20 .. 2.2*10^6 elements, ranks 1-4 (thorough 6), exactly 2^20 and just above, extents multiples / non-multiples of 64, moved axis first / middle / last, identity order, all four operations (quick 27 calls + 3 refusal lines; thorough every rotation, swaps, moves, rolls, a random order: ~250 calls) - the model answers the axis order, every element compared in place with the validated native gather formula on i64 (plain), u8 (Ok(array)) and for a third of the lines the 12-byte tuple; thorough: four `giant8` cases above 2^24 elements (u8 only); (13) constant / all-zero arrays and Thue-Morse mixtures of tags that are == but not identical in the bit-wise compared f64 image (-0.0/+0.0, two NaNs) on 15 (19) shapes; (15) axis arguments isize::MAX, isize::MIN (+ndim, +2^32), +-2^62, 2^64/d + c for d in 3,4,5,6,8,12 in every argument position, each refusal followed by a valid call. non-trivial = >=2 axes longer than 1" });
 }
